@@ -25,8 +25,8 @@ var globalPatterns = grok.CopyDenormalizedDefalutPatterns()
 // GrokLoad performs the load-time part of add_pattern / grok over a script:
 // patterns are visible in the block that declares them and in nested blocks.
 // It returns whether the script is acceptable and the compiled expressions.
-// redefined reports that a name was declared twice along one scope chain
-// (an unspecified cell).
+// redefined reports that a name was declared twice in one block or shadows a
+// built-in pattern (unspecified cells); shadowing an outer block's name is specified.
 func GrokLoad(prog []*rt.Node) (ok bool, compiled map[*rt.Node]*grok.GrokRegexp, redefined bool, why string) {
 	compiled = map[*rt.Node]*grok.GrokRegexp{}
 	ok = true
@@ -91,7 +91,9 @@ func GrokLoad(prog []*rt.Node) (ok bool, compiled map[*rt.Node]*grok.GrokRegexp,
 					return
 				}
 				st := storage()
-				if _, exists := st[:len(st)-1].GetPattern(n.Kids[0].S); exists {
+				// a second definition in the SAME block is unspecified (which one wins); a definition
+				// in a nested block shadows the outer one inside that block only
+				if _, exists := scopes[len(scopes)-1][n.Kids[0].S]; exists {
 					redefined = true
 				}
 				if _, exists := globalPatterns[n.Kids[0].S]; exists {
@@ -139,6 +141,10 @@ var fixedZoneLabels = map[string]int{
 // documented labels whose zone observes daylight saving time in January
 // (southern hemisphere) or changed rules recently: not decided here. "UTC" is
 // the IANA zone of that name and is decided (time.LoadLocation).
+// the same labels with their offsets: decided for southern-winter dates (June..August of 2021 or
+// later), when every zone the table maps them to is on its standard offset.
+var southernZoneOffsets = map[string]int{"-4": -14400, "+10": 36000, "+10:30": 37800, "+11": 39600, "+12": 43200, "+12:45": 45900, "+13": 46800, "+14": 50400, "-9:30": -34200}
+
 var ambiguousZoneLabels = map[string]bool{"-4": true, "+10": true, "+10:30": true, "+11": true, "+12": true, "+12:45": true, "+13": true, "+14": true, "-9:30": true, "CST": true}
 
 // house layouts tried before the general date parser (pinned by the
@@ -156,15 +162,20 @@ var houseLayouts = []string{
 func (w *World) refParseTime(value, tz string) (int64, bool) {
 	loc := time.Local
 	if tz != "" {
+		southern := false
 		if ambiguousZoneLabels[tz] {
-			w.unspec("time zone label " + tz)
+			if _, ok := southernZoneOffsets[tz]; ok {
+				southern = true // decided below if the date falls into the southern winter
+			} else {
+				w.unspec("time zone label " + tz)
+			}
 		}
 		if tz[0] == '+' || tz[0] == '-' {
 			off, ok := fixedZoneLabels[tz]
+			if southern {
+				off, ok = southernZoneOffsets[tz], true
+			}
 			if !ok {
-				if !ambiguousZoneLabels[tz] {
-					return 0, false
-				}
 				return 0, false
 			}
 			loc = time.FixedZone(tz, off)
@@ -176,8 +187,19 @@ func (w *World) refParseTime(value, tz string) (int64, bool) {
 			loc = l
 		}
 	}
+	southernCheck := func(t time.Time) {
+		if tz == "-3" && t.Year() < 2020 {
+			w.unspec("label -3 (America/Sao_Paulo) before Brazil abolished daylight saving time")
+		}
+		if tz != "" && ambiguousZoneLabels[tz] {
+			if _, ok := southernZoneOffsets[tz]; ok && !(t.Year() >= 2021 && t.Month() >= time.June && t.Month() <= time.August && t.Year() < 2030) {
+				w.unspec("time zone label " + tz + " outside the southern winter")
+			}
+		}
+	}
 	for _, lay := range houseLayouts {
 		if t, err := time.ParseInLocation(lay, value, loc); err == nil && t.UnixNano() > 0 {
+			southernCheck(t)
 			return t.UnixNano(), true
 		}
 	}
@@ -190,6 +212,7 @@ func (w *World) refParseTime(value, tz string) (int64, bool) {
 	if err != nil {
 		return 0, false
 	}
+	southernCheck(t)
 	if y := t.Year(); y < 1900 || y > 2261 {
 		// outside the int64-nanosecond range the result of UnixNano is undefined, and before
 		// standard time a zone label means local mean time in the real tz database
